@@ -18,7 +18,8 @@
                                             an OffsetCommit request reached the coordinator
      close_call joined / close_ret          offsetManager.Close()
      store     vals [[p,off,meta]..]        the simulated coordinator's store (integrity check)
-     err       p, what                      an error read from the Errors() channel of p (recorded before the
+     cfault    kind, broker, what           the coordinator side closed a connection outside a commit request
+     err       p, what, class               an error read from the Errors() channel of p (recorded before the
                                             commit_ret / close_ret of the call that produced it)
 
    Clauses (the sentences of the property):
@@ -38,9 +39,9 @@ EXTENDS Integers, Sequences, FiniteSets, TLC, Json
 Trace == ndJsonDeserialize("trace.ndjson")
 
 VARIABLES l, viol, cfg, pend, asked, touched, store, winLow, accLow, inFlight, flightMark,
-          reqs, closing, joined, finalsOk, refused, errs, cerr, st
+          reqs, closing, joined, finalsOk, refused, errs, envErrs, pendingFault, unsteer, st
 vars == <<l, viol, cfg, pend, asked, touched, store, winLow, accLow, inFlight, flightMark,
-          reqs, closing, joined, finalsOk, refused, errs, cerr, st>>
+          reqs, closing, joined, finalsOk, refused, errs, envErrs, pendingFault, unsteer, st>>
 
 E == Trace[l]
 V(c) == {<<E.t, E.i, c>>}
@@ -58,7 +59,8 @@ NoCfg == [mode |-> "none", auto |-> FALSE, retry |-> 0, initial |-> -1, errors |
 Stat0 == [traces |-> 0, marks |-> 0, effective |-> 0, flight_marks |-> 0, requests |-> 0,
           blocks |-> 0, flight_recommitted |-> 0, backwards_after_reset |-> 0, next_reads |-> 0,
           closes_premise |-> 0, closes |-> 0, faulty_requests |-> 0, closes_retried_partial_refusal |-> 0, closes_exhausted |-> 0,
-          closes_unsteered |-> 0, commits_unsteered |-> 0, errors_delivered |-> 0,
+          closes_unsteered |-> 0, commits_unsteered |-> 0, errors_delivered |-> 0, connection_errors_delivered |-> 0,
+          commits_failed_on_closed_connection |-> 0, coordinator_closed_idle_connection |-> 0, unscripted_connection_events |-> 0,
           sd_returns |-> 0, sd_hangs |-> 0, sd_panics |-> 0, sd_errors_channels_closed |-> 0]
 Bump(f) == [st EXCEPT ![f] = @ + 1]
 BumpBy(s, f, n) == [s EXCEPT ![f] = @ + n]
@@ -66,7 +68,7 @@ BumpBy(s, f, n) == [s EXCEPT ![f] = @ + n]
 Init == /\ l = 1 /\ viol = {} /\ cfg = NoCfg
         /\ pend = <<>> /\ asked = <<>> /\ touched = <<>> /\ store = <<>> /\ winLow = <<>> /\ accLow = <<>>
         /\ inFlight = FALSE /\ flightMark = <<>> /\ reqs = 0 /\ closing = FALSE /\ joined = FALSE
-        /\ finalsOk = TRUE /\ refused = <<>> /\ errs = <<>> /\ cerr = <<>> /\ st = Stat0
+        /\ finalsOk = TRUE /\ refused = <<>> /\ errs = <<>> /\ envErrs = <<>> /\ pendingFault = FALSE /\ unsteer = FALSE /\ st = Stat0
 
 TReset ==
   /\ E.ev = "reset"
@@ -83,7 +85,8 @@ TReset ==
         /\ flightMark' = [p \in ps |-> FALSE]
         /\ refused' = [p \in ps |-> 0]
         /\ errs' = [p \in ps |-> 0]
-        /\ cerr' = [p \in ps |-> 0]
+        /\ envErrs' = [p \in ps |-> 0]
+        /\ pendingFault' = FALSE /\ unsteer' = FALSE
   /\ inFlight' = FALSE /\ reqs' = 0 /\ closing' = FALSE /\ joined' = FALSE /\ finalsOk' = TRUE
   /\ st' = Bump("traces")
   /\ UNCHANGED viol
@@ -115,7 +118,7 @@ TMarkLike(isMark) ==
      ELSE UNCHANGED <<pend, asked, touched, flightMark, winLow>>
   /\ st' = BumpBy(BumpBy(BumpBy(st, "marks", 1), "effective", IF eff THEN 1 ELSE 0),
                   "flight_marks", IF eff /\ inFlight THEN 1 ELSE 0)
-  /\ UNCHANGED <<cfg, store, accLow, inFlight, reqs, closing, joined, finalsOk, refused, errs, cerr>>
+  /\ UNCHANGED <<cfg, store, accLow, inFlight, reqs, closing, joined, finalsOk, refused, errs, envErrs, pendingFault, unsteer>>
 
 TMark == E.ev = "mark" /\ TMarkLike(TRUE)
 TResetOff == E.ev = "resetoff" /\ TMarkLike(FALSE)
@@ -124,13 +127,13 @@ TNext ==
   /\ E.ev = "next"
   /\ viol' = viol \cup When(E.p \in Parts /\ Pos(E.off, E.meta) # Expected(pend[E.p]), "next_offset_is_pending_or_initial")
   /\ st' = Bump("next_reads")
-  /\ UNCHANGED <<cfg, pend, asked, touched, store, winLow, accLow, inFlight, flightMark, reqs, closing, joined, finalsOk, refused, errs, cerr>>
+  /\ UNCHANGED <<cfg, pend, asked, touched, store, winLow, accLow, inFlight, flightMark, reqs, closing, joined, finalsOk, refused, errs, envErrs, pendingFault, unsteer>>
 
 TCommitCall ==
   /\ E.ev = "commit_call"
   /\ reqs' = 0 /\ inFlight' = FALSE
-  /\ errs' = [p \in Parts |-> 0] /\ cerr' = [p \in Parts |-> 0]
-  /\ UNCHANGED <<viol, cfg, pend, asked, touched, store, winLow, accLow, flightMark, closing, joined, finalsOk, refused, st>>
+  /\ errs' = [p \in Parts |-> 0] /\ envErrs' = [p \in Parts |-> 0] /\ unsteer' = FALSE
+  /\ UNCHANGED <<viol, cfg, pend, asked, touched, store, winLow, accLow, flightMark, closing, joined, finalsOk, refused, pendingFault, st>>
 
 \* positions that are pending but not stored: the next commit has to carry them
 Unsent(blocks) == {p \in Parts : pend[p] # store[p] /\ <<p, pend[p].off, pend[p].meta>> \notin blocks}
@@ -140,15 +143,22 @@ UnsentClauses(ps) ==
 
 TCommitRet ==
   /\ E.ev = "commit_ret"
-  \* Commit() returned without having sent anything although a position is pending
-  \* ... unless the flush failed on the client side (coordinator lookup, dial, connection): then an error was
-  \* delivered on the Errors() channels ("err" events) and no verdict is given for this Commit (unsteered)
+  \* Commit() returned without any request having reached the coordinator although a position is pending.
+  \* Excused: the coordinator had closed the idle connection (scripted "pre" fault, cfault event) - that one flush
+  \* fails when the client finds out. Unsteered (no verdict): errors are not observable, or the flush failed for a
+  \* reason outside client and coordinator (dial / coordinator lookup / timeout errors, or a connection event the
+  \* coordinator side did not script). NOT excused: a flush that fails with a connection error (EOF, reset, broken
+  \* pipe) although the coordinator side did nothing to the connection since the last fault it was told about -
+  \* the client failed locally on a dead connection while the coordinator was reachable: the mark was not sent.
   /\ LET applies == cfg.mode \in {"seq", "win"} /\ reqs = 0 /\ Unsent({}) # {}
-         steered == cfg.errors /\ \A p \in Parts : errs[p] = 0
-     IN /\ viol' = viol \cup (IF applies /\ steered THEN UnsentClauses(Unsent({})) ELSE {})
-        /\ st' = BumpBy(st, "commits_unsteered", IF applies /\ ~steered THEN 1 ELSE 0)
+         steered == cfg.errors /\ ~unsteer /\ \A p \in Parts : envErrs[p] = 0
+     IN /\ viol' = viol \cup (IF applies /\ steered /\ ~pendingFault THEN UnsentClauses(Unsent({})) ELSE {})
+        /\ st' = BumpBy(BumpBy(st, "commits_unsteered", IF applies /\ ~steered THEN 1 ELSE 0),
+                        "commits_failed_on_closed_connection", IF applies /\ steered /\ pendingFault THEN 1 ELSE 0)
+  \* the pending fault is consumed by the flush that ran into it
+  /\ pendingFault' = IF reqs = 0 /\ (\E p \in Parts : errs[p] > 0) THEN FALSE ELSE pendingFault
   /\ inFlight' = FALSE
-  /\ UNCHANGED <<cfg, pend, asked, touched, store, winLow, accLow, flightMark, reqs, closing, joined, finalsOk, refused, errs, cerr>>
+  /\ UNCHANGED <<cfg, pend, asked, touched, store, winLow, accLow, flightMark, reqs, closing, joined, finalsOk, refused, errs, envErrs, unsteer>>
 
 \* an OffsetCommit request reached the coordinator; E.applied is what it stored
 TCreq ==
@@ -171,12 +181,9 @@ TCreq ==
      /\ finalsOk' = IF closing THEN finalsOk /\ allok ELSE finalsOk
      \* final attempts that carried p and did not get it stored
      /\ refused' = [p \in Parts |-> IF closing /\ p \notin ap /\ (\E b \in blocks : b[1] = p) THEN refused[p] + 1 ELSE refused[p]]
-     \* errors the client must deliver to p's Errors() channel because of what the coordinator did with this
-     \* request: a connection failure reaches every partition still managed, the report / default / missing-block
-     \* classes reach the partition concerned (redispatch and load-in-progress are silent)
-     /\ cerr' = [p \in Parts |-> IF E.conn # "none" \/ (\E k \in ToSet(E.ks) : k[1] = p /\ k[2] \in {"report", "unknown", "missing"})
-                                  THEN cerr[p] + 1 ELSE cerr[p]]
-     /\ UNCHANGED errs
+     \* a request that arrives came over a live connection: an earlier idle-connection fault has been consumed
+     /\ pendingFault' = FALSE
+     /\ UNCHANGED <<errs, envErrs, unsteer>>
      /\ flightMark' = [p \in Parts |-> IF p \in recommitted THEN FALSE ELSE flightMark[p]]
      /\ st' = BumpBy(BumpBy(BumpBy(BumpBy(BumpBy(st, "requests", 1), "blocks", Cardinality(blocks)),
                      "flight_recommitted", Cardinality(recommitted)),
@@ -188,8 +195,11 @@ TCreq ==
 
 TCloseCall ==
   /\ E.ev = "close_call"
-  /\ closing' = TRUE /\ joined' = E.joined /\ finalsOk' = TRUE /\ inFlight' = FALSE /\ reqs' = 0
-  /\ refused' = [p \in Parts |-> 0] /\ errs' = [p \in Parts |-> 0] /\ cerr' = [p \in Parts |-> 0]
+  /\ closing' = TRUE /\ joined' = E.joined /\ inFlight' = FALSE /\ reqs' = 0
+  \* an idle-connection fault the client has not run into yet costs the first final attempt
+  /\ finalsOk' = ~pendingFault /\ refused' = [p \in Parts |-> IF pendingFault THEN 1 ELSE 0]
+  /\ pendingFault' = FALSE /\ unsteer' = FALSE
+  /\ errs' = [p \in Parts |-> 0] /\ envErrs' = [p \in Parts |-> 0]
   /\ UNCHANGED <<viol, cfg, pend, asked, touched, store, winLow, accLow, flightMark, st>>
 
 \* Close returned: auto-commit, markers joined before Close, every final attempt accepted
@@ -197,11 +207,14 @@ TCloseRet ==
   /\ E.ev = "close_ret"
   /\ LET premise == cfg.auto /\ joined /\ finalsOk
          lost == {p \in Parts : touched[p] /\ store[p] # pend[p]}
-         \* explicit premise of both Close clauses: every failed final attempt is one the coordinator saw. A final
-         \* attempt that failed on the client side (coordinator lookup, dial, connection reset) consumes Retry.Max too
-         \* and delivers an error to every partition still dirty: when a lost partition received more errors than the
-         \* coordinator's own answers explain - or errors are not observable - the Close is unsteered: no verdict
-         steered == cfg.errors /\ \A p \in lost : errs[p] <= cerr[p]
+         \* explicit premise of both Close clauses: every final attempt either reached the coordinator (creq) or ran into
+         \* a connection fault of the coordinator side (conn field of creq, cfault events) - those count as refusals.
+         \* Unsteered (no verdict): errors not observable; a lost partition received an error of the classes dial /
+         \* coordinator lookup / timeout / other (an attempt failed outside client and coordinator and consumed
+         \* Retry.Max); or the coordinator side saw a connection event it did not script. Connection errors (EOF,
+         \* reset, broken pipe) that no coordinator-side event explains do NOT un-steer: the coordinator was reachable
+         \* and unchanged, the client burnt the attempt locally on a dead connection.
+         steered == cfg.errors /\ ~unsteer /\ \A p \in lost : envErrs[p] = 0
          v1 == premise /\ lost # {}
          \* no mark is lost at Close unless the final attempts were really exhausted FOR THAT PARTITION:
          \* Retry.Max + 1 final requests carried it and the coordinator refused it every time
@@ -215,26 +228,40 @@ TCloseRet ==
                      "closes_exhausted",
                      IF cfg.auto /\ joined /\ (\E p \in lost : refused[p] >= cfg.retry + 1) THEN 1 ELSE 0),
                      "closes_unsteered", IF (v1 \/ v2) /\ ~steered THEN 1 ELSE 0)
-  /\ UNCHANGED <<cfg, pend, asked, touched, store, winLow, accLow, inFlight, flightMark, reqs, closing, joined, finalsOk, refused, errs, cerr>>
+  /\ UNCHANGED <<cfg, pend, asked, touched, store, winLow, accLow, inFlight, flightMark, reqs, closing, joined, finalsOk, refused, errs, envErrs, pendingFault, unsteer>>
 
 \* an error delivered on the Errors() channel of partition p
 TErr ==
   /\ E.ev = "err"
   /\ errs' = [p \in Parts |-> IF p = E.p THEN errs[p] + 1 ELSE errs[p]]
-  /\ st' = Bump("errors_delivered")
-  /\ UNCHANGED <<viol, cfg, pend, asked, touched, store, winLow, accLow, inFlight, flightMark, reqs, closing, joined, finalsOk, refused, cerr>>
+  /\ envErrs' = [p \in Parts |-> IF p = E.p /\ E.class \in {"dial", "lookup", "timeout", "other"} THEN envErrs[p] + 1 ELSE envErrs[p]]
+  /\ st' = BumpBy(Bump("errors_delivered"), "connection_errors_delivered", IF E.class \in {"eof", "net"} THEN 1 ELSE 0)
+  /\ UNCHANGED <<viol, cfg, pend, asked, touched, store, winLow, accLow, inFlight, flightMark, reqs, closing, joined, finalsOk, refused, pendingFault, unsteer>>
+
+\* the coordinator side closed a connection outside a commit request: "pre_fin" / "pre_rst" = scripted close of the idle
+\* connection (the next flush over it fails: one refusal); "unscripted" / "peer_reset" = not scripted: un-steers
+TCfault ==
+  /\ E.ev = "cfault"
+  /\ LET scripted == E.kind \in {"pre_fin", "pre_rst"} IN
+     /\ pendingFault' = (pendingFault \/ (scripted /\ ~closing))
+     /\ unsteer' = (unsteer \/ ~scripted)
+     /\ refused' = [p \in Parts |-> IF scripted /\ closing THEN refused[p] + 1 ELSE refused[p]]
+     /\ finalsOk' = IF closing THEN FALSE ELSE finalsOk
+     /\ st' = BumpBy(BumpBy(st, "coordinator_closed_idle_connection", IF scripted THEN 1 ELSE 0),
+                     "unscripted_connection_events", IF scripted THEN 0 ELSE 1)
+  /\ UNCHANGED <<viol, cfg, pend, asked, touched, store, winLow, accLow, inFlight, flightMark, reqs, closing, joined, errs, envErrs>>
 
 \* integrity of the simulated coordinator: its store is what the creq events said it applied
 TStore ==
   /\ E.ev = "store"
   /\ viol' = viol \cup When(\E x \in ToSet(E.vals) : x[1] \in Parts /\ store[x[1]] # Pos(x[2], x[3]), "harness_store_mismatch")
-  /\ UNCHANGED <<cfg, pend, asked, touched, store, winLow, accLow, inFlight, flightMark, reqs, closing, joined, finalsOk, refused, errs, cerr, st>>
+  /\ UNCHANGED <<cfg, pend, asked, touched, store, winLow, accLow, inFlight, flightMark, reqs, closing, joined, finalsOk, refused, errs, envErrs, pendingFault, unsteer, st>>
 
 TNote == /\ E.ev \in {"note", "lookup"}
-         /\ UNCHANGED <<viol, cfg, pend, asked, touched, store, winLow, accLow, inFlight, flightMark, reqs, closing, joined, finalsOk, refused, errs, cerr, st>>
+         /\ UNCHANGED <<viol, cfg, pend, asked, touched, store, winLow, accLow, inFlight, flightMark, reqs, closing, joined, finalsOk, refused, errs, envErrs, pendingFault, unsteer, st>>
 
 \* ---- shutdown family: the calls were awaited by a quiescence-aware watchdog
-Rest == <<cfg, pend, asked, touched, store, winLow, accLow, inFlight, flightMark, reqs, closing, joined, finalsOk, refused, errs, cerr>>
+Rest == <<cfg, pend, asked, touched, store, winLow, accLow, inFlight, flightMark, reqs, closing, joined, finalsOk, refused, errs, envErrs, pendingFault, unsteer>>
 TSdRet ==
   /\ E.ev = "sd_ret"
   /\ viol' = viol \cup When(E.hang, "close_hang") \cup When(E.panic # "", "close_panic")
@@ -255,12 +282,12 @@ TErrorsClosed ==
 TEnd == /\ E.ev = "end"
         /\ PrintT(<<"VIOL", ToJson(viol)>>)
         /\ PrintT(<<"STATS", ToJson(st)>>)
-        /\ UNCHANGED <<viol, cfg, pend, asked, touched, store, winLow, accLow, inFlight, flightMark, reqs, closing, joined, finalsOk, refused, errs, cerr, st>>
+        /\ UNCHANGED <<viol, cfg, pend, asked, touched, store, winLow, accLow, inFlight, flightMark, reqs, closing, joined, finalsOk, refused, errs, envErrs, pendingFault, unsteer, st>>
 
 Next == /\ l <= Len(Trace)
         /\ l' = l + 1
         /\ (TReset \/ TMark \/ TResetOff \/ TNext \/ TCommitCall \/ TCommitRet \/ TCreq
-            \/ TCloseCall \/ TCloseRet \/ TStore \/ TNote \/ TErr \/ TSdRet \/ TPanic \/ TErrorsClosed \/ TEnd)
+            \/ TCloseCall \/ TCloseRet \/ TStore \/ TNote \/ TErr \/ TCfault \/ TSdRet \/ TPanic \/ TErrorsClosed \/ TEnd)
 Spec == Init /\ [][Next]_vars
 Accepted == TLCGet("stats").diameter - 1 = Len(Trace)
 =============================================================================
